@@ -1,6 +1,6 @@
 (* C16 — property theorems only. Each is closed by [exact] of a lemma of Proofs_*.v. *)
 From Coq Require Import List ZArith QArith Qround Qabs Bool Permutation.
-From Gst Require Import lib.QAux C16.Model C16.Spec C16.Proofs.
+From Gst Require Import lib.QAux C16.Model C16.Spec C16.Proofs C16.Proofs_pigeon.
 Import ListNotations.
 Local Open Scope Q_scope.
 
@@ -198,6 +198,28 @@ Theorem C16_iterator_order_once : forall nx order it1 it2 idx,
   iter_next_order nx order it1 = Some idx -> iter_next_order nx order it2 = Some idx -> it1 = it2.
 Proof. exact iter_order_injective. Qed.
 Print Assumptions C16_iterator_order_once.
+
+(* the acceptance test of iteratorInit (same length, every dimension named by some entry) admits exactly those
+   permutations — pigeonhole — so the two theorems above apply to whatever order the object keeps *)
+Theorem C16_iterator_init_permutation : forall n order, iter_init_order n order <> [] ->
+  Forall (fun o => (1 <= Z.abs o)%Z) (iter_init_order n order) /\
+  Permutation (map od (iter_init_order n order)) (seq 0 n).
+Proof. exact iter_init_order_perm. Qed.
+Print Assumptions C16_iterator_init_permutation.
+Theorem C16_iterator_init_accepts : forall n order, order <> [] -> length order = n ->
+  Forall (fun o => (1 <= Z.abs o)%Z) order -> Permutation (map od order) (seq 0 n) -> iter_init_order n order = order.
+Proof. exact iter_init_order_accepts. Qed.
+Print Assumptions C16_iterator_init_accepts.
+Theorem C16_iterator_any_order_once : forall nx order it1 it2 idx,
+  iter_init_order (length nx) order <> [] ->
+  allpos nx -> (0 <= it1 < prodZ nx)%Z -> (0 <= it2 < prodZ nx)%Z ->
+  iter_next_order nx (iter_init_order (length nx) order) it1 = Some idx ->
+  iter_next_order nx (iter_init_order (length nx) order) it2 = Some idx -> it1 = it2.
+Proof.
+  intros nx order it1 it2 idx Hne. destruct (iter_init_order_perm (length nx) order Hne) as [H1 H2].
+  exact (iter_order_injective nx _ it1 it2 idx H1 H2).
+Qed.
+Print Assumptions C16_iterator_any_order_once.
 
 (* ------------------------------------------------------------------ sessions *)
 (* the model's answer to a query is independent of the queries made before on the same object: in any session
